@@ -137,12 +137,25 @@ class Schema:
 
     def _register_hook(self, m, hv):
         # hv = Call(Call(Ext pydantic.field_validator|field_serializer, *names, mode=..), inner)
+        # or the inner function itself, decorated with @field_validator(...) / @field_serializer(...) where it is
+        # defined (a nested def of a factory): the decorators are remembered on it with their evaluated arguments
+        if hv.op in ("Closure", "Func") and hv.extra and hv.extra.get("ext_decorator_nodes"):
+            for dv in hv.extra["ext_decorator_nodes"]:
+                if dv.op == "Call" and dv.args and dv.args[0].op == "Ext" and \
+                        dv.args[0].attr.split(".")[-1] in ("field_validator", "field_serializer"):
+                    self._register_decorated(m, dv, hv)
+            return
         if hv.op != "Call" or not hv.args or hv.args[0].op != "Call" or not hv.args[0].args or \
                 hv.args[0].args[0].op != "Ext":
             return
-        deco = hv.args[0]
+        self._register_decorated(m, hv.args[0], hv.args[1] if len(hv.args) > 1 else None)
+
+    def _register_decorated(self, m, deco, inner):
+        hv = None
+        if inner is None:
+            return
         dn = deco.args[0].attr.split(".")[-1]
-        if dn not in ("field_validator", "field_serializer") or len(hv.args) < 2:
+        if dn not in ("field_validator", "field_serializer"):
             return
         npos, kwn = deco.attr[1], deco.attr[2]
         pos = list(deco.args[1:1 + npos])
@@ -153,7 +166,6 @@ class Schema:
                 names.append(a.attr)
             elif a.op == "Starred" and a.args[0].op in ("Tuple", "List"):
                 names += [x.attr for x in a.args[0].args if x.op == "Const"]
-        inner = hv.args[1]
         if inner.op == "Call" and inner.args and inner.args[0].op == "Ext" and \
                 inner.args[0].attr == "builtins.classmethod" and len(inner.args) == 2:
             inner = inner.args[1]
